@@ -208,7 +208,8 @@ func c05(c *core.Ctx, r *core.Report) {
 			}
 			if f.loop != nil {
 				for _, g := range an.GoTargetOf(c.AllFuncs, f.loop) {
-					if g.Parent() == t {
+					// the exported Start, or a locked wrapper around the function holding the `go`
+					if g.Parent() == t || len(an.FlatCalls(t, 2, func(_ ssa.CallInstruction, h *ssa.Function) bool { return h == g.Parent() })) > 0 {
 						startCall = call
 					}
 				}
